@@ -788,6 +788,16 @@ impl<'tcx> Cx<'tcx> {
                 // type parameters replaced by a plain scalar (only for bool constants defined in core / alloc / std).
                 let krate = tcx.crate_name(did.krate);
                 let cty = tcx.type_of(did).instantiate_identity().skip_norm_wip();
+                // a literal initialiser has no CTFE body at all: rustc records its value
+                if let Some((val, vty)) = tcx.trivial_const(did) {
+                    if let Some(v) = self.destructure_const(val, vty, 0) {
+                        return Some(v);
+                    }
+                    return None;
+                }
+                let ctfe_body = |did: DefId| -> Option<&'tcx mir::Body<'tcx>> {
+                    std::panic::catch_unwind(std::panic::AssertUnwindSafe(|| tcx.mir_for_ctfe(did))).ok()
+                };
                 {
                     use rustc_middle::ty::{TypeFoldable, TypeVisitableExt};
                     // A table constant of a generic impl (`impl<S> Matrix3<S> { const PLANES: [(usize, usize); 3] = .. }`): its
@@ -817,8 +827,7 @@ impl<'tcx> Cx<'tcx> {
                             return vals.into_iter().next();
                         }
                         if vals.is_empty() {
-                            let b = std::panic::catch_unwind(std::panic::AssertUnwindSafe(|| tcx.mir_for_ctfe(did)));
-                            if let Ok(b) = b {
+                            if let Some(b) = ctfe_body(did) {
                                 return self.eval_straight_line(st, b, inst);
                             }
                         }
@@ -828,8 +837,7 @@ impl<'tcx> Cx<'tcx> {
                 // A constant of the crate under analysis whose type mentions the parameters (`impl<S, R> Partial<S, R> { const
                 // EMPTY: Self = Partial { scale: None, .. } }`): its straight-line initialiser is interpreted like a promoted.
                 if { use rustc_middle::ty::TypeVisitableExt; cty.has_non_region_param() } {
-                    let b = std::panic::catch_unwind(std::panic::AssertUnwindSafe(|| tcx.mir_for_ctfe(did)));
-                    if let Ok(b) = b {
+                    if let Some(b) = ctfe_body(did) {
                         return self.eval_straight_line(st, b, inst);
                     }
                     return None;
@@ -886,7 +894,7 @@ impl<'tcx> Cx<'tcx> {
     }
 
     fn destructure_const(&self, val: mir::ConstValue, ty: Ty<'tcx>, depth: usize) -> Option<V<'tcx>> {
-        if depth > 4 {
+        if depth > 8 {
             return None;
         }
         match ty.kind() {
@@ -1836,9 +1844,15 @@ impl<'tcx> Cx<'tcx> {
                         }
                         argtys.push(self.subst(&fr, a.node.ty(fr.body, self.tcx)));
                     }
-                    let fv = match self.eval_operand(&mut st, func) {
-                        Ok(v) => v,
-                        Err(e) => return self.top(e, tsp),
+                    // a callee whose static type is a function item needs no value (`(*f)(..)` with `f: &fn-item`)
+                    let static_fty = self.subst(&fr, func.ty(fr.body, self.tcx));
+                    let fv = if matches!(static_fty.kind(), ty::FnDef(..)) {
+                        V::Fn(static_fty)
+                    } else {
+                        match self.eval_operand(&mut st, func) {
+                            Ok(v) => v,
+                            Err(e) => return self.top(e, tsp),
+                        }
                     };
                     let fty = match fv {
                         V::Fn(t) => t,
@@ -2665,8 +2679,10 @@ impl<'tcx> Cx<'tcx> {
             }
         }
         // `(0..3).fold(..)`: a range with concrete bounds unrolls like a for-loop over it
-        let concrete_range = matches!(argv.first(), Some(V::Agg(fs)) if fs.len() == 2 && fs.iter().all(|f| matches!(f, V::Int(_))))
-            && matches!(argtys.first().map(|t| t.kind()), Some(ty::Adt(d, _)) if tcx.def_path_str(d.did()).ends_with("ops::Range"));
+        let concrete_range = match (argv.first(), argtys.first()) {
+            (Some(v), Some(t)) => self.concrete_range(v, *t, 0),
+            _ => false,
+        };
         let always_opaque = name == "core::iter::traits::iterator::Iterator::fold" && !concrete_iter && !concrete_range
             || (pretty == "core::slice::<impl [T]>::iter" || pretty == "core::slice::<impl [T]>::iter_mut") && !matches!(argv.first(), Some(V::Ref(p)) if p.win.is_some())
             || name.starts_with("core::slice::index")
@@ -2827,37 +2843,109 @@ impl<'tcx> Cx<'tcx> {
         }
         entry.push('}');
         st.trace.push(entry);
-        // havoc everything reachable through &mut / *mut arguments
+        // havoc everything reachable through &mut / *mut arguments, including the ones captured by closures or held in
+        // aggregates that are passed by value
         let mut k = 0;
         for (a, t) in argv.iter().zip(&argtys) {
-            let mutable = match t.kind() {
-                ty::Ref(_, _, m) => m.is_mut(),
-                ty::RawPtr(_, m) => m.is_mut(),
-                _ => false,
-            };
-            if mutable {
-                if let V::Ref(p) = a {
-                    if let Some((_, len)) = p.win {
-                        // a slice window: every element in it may have been written
-                        let ety = self.win_elem_ty(st, p)?;
-                        for i in 0..len {
-                            let q = self.elem_ptr(p, i)?;
-                            let nv = self.shape(st, ety, app("mut", vec![ct, cint(&k.to_string()), cint(&i.to_string())]));
-                            self.write(st, &q, nv)?;
-                        }
-                        k += 1;
-                        continue;
-                    }
-                    let pty = self.ptr_ty(st, p)?;
-                    let nv = self.shape(st, pty, app("mut", vec![ct, cint(&k.to_string())]));
-                    self.write(st, p, nv)?;
-                    k += 1;
-                }
-            }
+            self.havoc_arg(st, a, *t, ct, &mut k, 0)?;
         }
         let r = self.shape(st, dty, ct);
         finish(self, st, r)?;
         Ok(None)
+    }
+
+    /// What an unmodelled callee may have written through one of its arguments.
+    fn havoc_arg(&self, st: &mut State<'tcx>, a: &V<'tcx>, t: Ty<'tcx>, ct: T, k: &mut usize, depth: usize) -> R<()> {
+        let tcx = self.tcx;
+        if depth > 5 {
+            return Ok(());
+        }
+        match t.kind() {
+            ty::Ref(_, inner, m) | ty::RawPtr(inner, m) => {
+                if let V::Ref(p) = a {
+                    if m.is_mut() {
+                        if let Some((_, len)) = p.win {
+                            // a slice window: every element in it may have been written
+                            let ety = self.win_elem_ty(st, p)?;
+                            for i in 0..len {
+                                let q = self.elem_ptr(p, i)?;
+                                let nv = self.shape(st, ety, app("mut", vec![ct, cint(&k.to_string()), cint(&i.to_string())]));
+                                self.write(st, &q, nv)?;
+                            }
+                            *k += 1;
+                            return Ok(());
+                        }
+                        // what the pointee itself captures mutably (`&mut F` with `F` a closure over `&mut self`)
+                        if Self::may_hold_mut(tcx, *inner, 0) {
+                            if let Ok(cur) = self.read(st, p) {
+                                self.havoc_arg(st, &cur, *inner, ct, k, depth + 1)?;
+                            }
+                        }
+                        let pty = self.ptr_ty(st, p)?;
+                        let nv = self.shape(st, pty, app("mut", vec![ct, cint(&k.to_string())]));
+                        self.write(st, p, nv)?;
+                        *k += 1;
+                    } else if p.win.is_none() && Self::may_hold_mut(tcx, *inner, 0) {
+                        // `&F` where `F: Fn` cannot write through its captures, but a shared reference to a struct of
+                        // `&mut` fields cannot either: nothing to do
+                    }
+                }
+            }
+            ty::Closure(_, ga) => {
+                if let V::Agg(fs) = a {
+                    let ups: Vec<Ty<'tcx>> = ga.as_closure().upvar_tys().iter().collect();
+                    for (f, ft) in fs.clone().iter().zip(ups) {
+                        self.havoc_arg(st, f, ft, ct, k, depth + 1)?;
+                    }
+                }
+            }
+            ty::Tuple(ts) => {
+                if let V::Agg(fs) = a {
+                    for (f, ft) in fs.clone().iter().zip(ts.iter()) {
+                        self.havoc_arg(st, f, ft, ct, k, depth + 1)?;
+                    }
+                }
+            }
+            ty::Adt(d, ga) if d.is_struct() && Self::may_hold_mut(tcx, t, 0) => {
+                if let V::Agg(fs) = a {
+                    let ftys: Vec<Ty<'tcx>> = d.non_enum_variant().fields.iter().map(|f| f.ty(tcx, ga)).collect();
+                    if ftys.len() == fs.len() {
+                        for (f, ft) in fs.clone().iter().zip(ftys) {
+                            self.havoc_arg(st, f, ft, ct, k, depth + 1)?;
+                        }
+                    }
+                }
+            }
+            ty::Adt(d, ga) if d.is_enum() && Self::may_hold_mut(tcx, t, 0) => {
+                if let V::Enum(vi, fs) = a {
+                    if let Some(var) = d.variants().iter().nth(*vi as usize) {
+                        let ftys: Vec<Ty<'tcx>> = var.fields.iter().map(|f| f.ty(tcx, ga)).collect();
+                        if ftys.len() == fs.len() {
+                            for (f, ft) in fs.clone().iter().zip(ftys) {
+                                self.havoc_arg(st, f, ft, ct, k, depth + 1)?;
+                            }
+                        }
+                    }
+                }
+            }
+            _ => {}
+        }
+        Ok(())
+    }
+
+    /// Whether a value of this type can carry a `&mut` / `*mut` somewhere inside it.
+    fn may_hold_mut(tcx: TyCtxt<'tcx>, t: Ty<'tcx>, depth: usize) -> bool {
+        if depth > 5 {
+            return false;
+        }
+        match t.kind() {
+            ty::Ref(_, _, m) | ty::RawPtr(_, m) => m.is_mut(),
+            ty::Closure(_, ga) => ga.as_closure().upvar_tys().iter().any(|u| Self::may_hold_mut(tcx, u, depth + 1)),
+            ty::Tuple(ts) => ts.iter().any(|u| Self::may_hold_mut(tcx, u, depth + 1)),
+            ty::Adt(d, ga) => !d.is_union() && d.all_fields().any(|f| Self::may_hold_mut(tcx, f.ty(tcx, ga), depth + 1)),
+            ty::Array(e, _) | ty::Slice(e) => Self::may_hold_mut(tcx, *e, depth + 1),
+            _ => false,
+        }
     }
 
     /// One step of `[T; N]::map(f)`: collect the result of the previous call of `f`, start the next one, or finish.
@@ -2955,6 +3043,53 @@ impl<'tcx> Cx<'tcx> {
             }
             _ => Ok(None),
         }
+    }
+
+    /// A range with concrete bounds, possibly behind core's iterator adaptors (`(0..n).rev()`, `.map(f)`, `.enumerate()`):
+    /// its provided methods unroll like a for-loop over it.
+    fn concrete_range(&self, v: &V<'tcx>, t: Ty<'tcx>, depth: usize) -> bool {
+        let tcx = self.tcx;
+        if depth > 6 {
+            return false;
+        }
+        let (ty::Adt(d, ga), V::Agg(fs)) = (t.kind(), v) else { return false };
+        let path = tcx.def_path_str(d.did());
+        if path.ends_with("ops::Range") || path.ends_with("ops::RangeInclusive") {
+            return fs.len() >= 2 && fs.iter().take(2).all(|f| matches!(f, V::Int(_)));
+        }
+        if !(path.starts_with("core::iter::adapters::") || path.starts_with("std::iter::")) || !d.is_struct() {
+            return false;
+        }
+        // every field that is itself an iterator must be a concrete range; the other fields (closures, counters) are free
+        let mut seen = false;
+        for (i, f) in d.non_enum_variant().fields.iter().enumerate() {
+            let mut fty = f.ty(tcx, ga);
+            let mut fv = fs.get(i);
+            // `Fuse { iter: Option<I> }`, `FlattenCompat { frontiter: Option<U>, .. }`
+            if let ty::Adt(od, oa) = fty.kind() {
+                if tcx.is_lang_item(od.did(), LangItem::Option) {
+                    match fv {
+                        Some(V::Enum(1, xs)) if xs.len() == 1 => {
+                            fty = oa.type_at(0);
+                            fv = xs.first();
+                        }
+                        Some(V::Enum(0, _)) => continue,
+                        _ => return false,
+                    }
+                }
+            }
+            let is_iter_ty = matches!(fty.kind(), ty::Adt(fd, _) if {
+                let p = tcx.def_path_str(fd.did());
+                p.ends_with("ops::Range") || p.ends_with("ops::RangeInclusive") || p.starts_with("core::iter::adapters::") || p.starts_with("std::iter::")
+            });
+            if is_iter_ty {
+                match fv {
+                    Some(fv) if self.concrete_range(fv, fty, depth + 1) => seen = true,
+                    _ => return false,
+                }
+            }
+        }
+        seen
     }
 
     fn has_iter(&self, st: &State<'tcx>, v: &V<'tcx>, depth: usize) -> bool {
